@@ -19,6 +19,10 @@ class PipelineContextTool:
         # remove ".pt.trace" if present as it is only needed for the output json for tensorboard use
         fname = fname.replace(".pt.trace", "")
 
+        # only the file name takes part: a '.' in a directory name (./out, run.v1/out) is not an extension
+        sep = fname.rfind('/') + 1
+        dirname, fname = fname[:sep], fname[sep:]
+
         # insert _summary before the last '.' and replace the .nnn with .csv
         fcomponents = fname.split('.')
         assert len(fcomponents) >= 1, "Filename cannot be empty."
@@ -28,7 +32,7 @@ class PipelineContextTool:
         fcomponents[-2] += "_" + purpose
         fcomponents[-1] = extension
 
-        return '.'.join(fcomponents)
+        return dirname + '.'.join(fcomponents)
 
     @staticmethod
     def get_dialect_of_event(event: TraceEvent) -> InputDialect | None:
